@@ -11,13 +11,16 @@ pub fn payload(id: LogId, class: u8) -> String {
     match class {
         0 => format!("p{}-{}", id.0, id.1),
         1 => String::new(),
-        _ => {
+        c => {
+            // 2: larger than the 1 KiB read block is not needed for the record
+            // scan (300 bytes); 3: two of them straddle any 64 KiB block
+            let n = if c == 3 { 40_000 } else { 300 };
             let unit = format!("<{}:{}>", id.0, id.1);
-            let mut s = String::new();
-            while s.len() < 300 {
+            let mut s = String::with_capacity(n + 16);
+            while s.len() < n {
                 s.push_str(&unit);
             }
-            s.truncate(300);
+            s.truncate(n);
             s
         }
     }
@@ -64,6 +67,7 @@ pub fn legal(m: &RefLog, which: Alpha) -> Vec<(&'static str, Op)> {
         ));
         v.push(("append_empty", Op::Append(vec![ent((term, next), 1)])));
         v.push(("append_big", Op::Append(vec![ent((term, next), 2)])));
+        v.push(("append_huge", Op::Append(vec![ent((term, next), 3)])));
     }
 
     // truncations
